@@ -299,6 +299,10 @@ def extract(rw):
             elif _is_parallel_with(node):
                 reg.form = "parallel"
                 reg.tree = [x for s in node.body for x in b.stmt(s)]
+            elif isinstance(node, ast.With) and len(node.body) == 1 and _is_prange(node.body[0]):
+                reg.form = "prange"  # `with nogil:` around a single prange: same region as prange(nogil=True)
+                reg.prelude = fd.body[: top[0]]
+                reg.tree = b.stmt(node.body[0])
             else:
                 raise Unsupported("line %d: prange neither at function level nor in a parallel block" % node.lineno)
             # the scalars that are both assigned and updated in place are reductions for Cython
